@@ -178,7 +178,7 @@ def run(ctx):
     # watermarks) and `journal_manager`; a client thread that waits for background work (back-pressure, write halt, a
     # blocking queue send) while holding one of them waits for workers that wait for it
     WIDE = ("keyspaces", "journal_manager")
-    WIDE_EXC = {("keyspaces", "db::Database::recover"): "open path: no handle has been returned yet; the queued messages are consumed once the pool starts"}
+    WIDE_EXC = {}
     n_wide = 0
     for fid, fn in sorted(F.fns.items()):
         for g in lm.guards(fn):
@@ -355,6 +355,50 @@ def run(ctx):
             detail = "every iteration of the halt loop sends WorkerMessage::Compact for this keyspace before it sleeps" if ok else \
                 "the write-halt loop only sleeps and re-reads l0_run_count(): nobody requests the compaction it waits for — when the post-flush Compact messages were consumed while another compaction ran, writers stay parked forever on an idle database"
         ctx.ob("R-C14.7", cwh, "halted-writer-requests-compaction", ok, detail)
+
+    # ---- R-C14.7 (cont.) nobody waits for work that cannot happen: a deleted keyspace is never compacted again, and once the
+    # database is gone no worker exists.  Both stall loops leave on `is_deleted` and on a dead worker queue.
+    for fid_ in ("keyspace::Keyspace::check_write_halt", "keyspace::Keyspace::local_backpressure"):
+        fn_ = ctx.fn(fid_, "R-C14.7")
+        if not fn_:
+            continue
+        og_ = ctx.og(fn_)
+        loops_ = [set(c) for c in A.sccs(fn_) if len(c) > 1 and any(fn_.term(b)["k"] == "call" and A.cname(fn_.term(b)) == "std::thread::sleep" for b in c)]
+        okd = okw = bool(loops_)
+        for comp in loops_:
+            dels = [b for b in comp if fn_.term(b)["k"] == "call" and A.cname(fn_.term(b)) == "std::sync::atomic::Atomic::<bool>::load"
+                    and any(x.k == "field" and x.a[1] == "is_deleted" for x in A.walk(og_.of_operand(fn_.term(b)["args"][0])))]
+            ups = [b for b in comp if fn_.term(b)["k"] == "call" and A.cname(fn_.term(b)).endswith("::upgrade") and "flume" in A.cname(fn_.term(b))]
+            # each test has an edge that leaves the loop
+            def leaves(b):
+                for x in A.reach(fn_, fn_.succs(b), avoid=[y for y in comp if y != b and fn_.term(y)["k"] == "call" and (
+                        A.cname(fn_.term(y)) == "std::thread::sleep" or A.cname(fn_.term(y)).endswith(("::l0_run_count", "::sealed_memtable_count")))]):
+                    if fn_.term(x)["k"] == "switch" and any(s_ not in comp for s_ in fn_.succs(x)):
+                        return True
+                return False
+            okd = okd and any(leaves(b) for b in dels)
+            okw = okw and any(leaves(b) for b in ups)
+        ctx.ob("R-C14.7", fn_, "stall-loop-ends-when-the-keyspace-is-deleted", okd,
+               "the waiting loop leaves when is_deleted is set" if okd else
+               "%s waits for a compaction / flush of its keyspace without looking at is_deleted: compactions of a deleted keyspace are declined, so a writer parked here when another thread deletes the keyspace waits forever (and, holding the single-writer lock, blocks every other writer)" % fid_)
+        ctx.ob("R-C14.7", fn_, "stall-loop-ends-when-the-workers-are-gone", okw,
+               "the waiting loop leaves when the worker queue is gone (the database was dropped, only this handle is left)" if okw else
+               "%s waits for background work although the database — and every worker — may be gone (a keyspace handle can outlive the database): the writer spins forever" % fid_)
+    # ---- R-C14.11 the hard write halt must lie ABOVE the point at which the keyspace's strategy starts compacting L0: otherwise
+    # the halt waits for a compaction the strategy will never choose
+    cwh11 = ctx.fn("keyspace::Keyspace::check_write_halt", "R-C14.11")
+    if cwh11:
+        og11 = ctx.og(cwh11)
+        lim = None
+        for b, blk in enumerate(cwh11.blocks):
+            if blk["t"]["k"] == "switch" and not blk["cleanup"]:
+                cmp_ = A.compare_switch(cwh11, b, og11)
+                if cmp_ and any(x.k == "call" and x.a[0].endswith("::l0_run_count") for x in A.walk(cmp_[1])):
+                    lim = cmp_[2]
+        ok11 = lim is not None and lim.k != "const"
+        ctx.ob("R-C14.11", cwh11, "halt-threshold-follows-the-strategys-l0-threshold", ok11,
+               "the halt threshold is derived from the keyspace's configuration" if ok11 else
+               "the write halt is hard-wired to %s L0 runs while the point at which L0 is compacted is configurable (Leveled::with_l0_threshold): with a threshold above the halt the strategy never picks the compaction the halted writer waits for" % (A.tstr(lim) if lim is not None else "?"))
 
     # ---- R-C14.9 a worker leaves its loop only when it is told to (Close) or the queue is gone.  worker_tick answers Ok(true)
     # ("stop") on exactly those two edges; an Ok(true) anywhere else (no flush task to dequeue, a bounced compaction, the
